@@ -10,7 +10,7 @@ sys.path.insert(0, VERIF)
 from mirsym.core import *          # noqa
 from mirsym import core as mcore
 from mirsym.models import std_models, I64, in_i64
-from mirsym import models_extra, hashmap, iters, strmodels, more_models, set_models   # noqa: register further models
+from mirsym import models_extra, hashmap, iters, strmodels, more_models, set_models, env_models   # noqa: register further models
 
 ENV = dict(os.environ, CARGO_NET_OFFLINE='true', CARGO_TERM_COLOR='never')
 NCPU = int(os.environ.get('VERIF_JOBS', '0')) or min(16, os.cpu_count() or 4)
